@@ -39,6 +39,10 @@ EvAuth ==
                                         /\ (E.code = 235 => E.cb = 1 /\ E.verdict = 0)
                                         /\ (E.verdict # 0 /\ E.cb = 1) => E.code = E.verdict)
        \cup Flag("C08_CredsExact", (E.cb >= 1 /\ E.shape \in {"initial", "challenge"}) => E.creds_ok)
+       \* ... and they are shown: a well-formed exchange that is permitted here (session state, TLS or a mechanism that does
+       \* not need it) is put before the application, once - whatever was broken off earlier in the session
+       \cup Flag("C08_CredsReachApplication", (E.shape \in {"initial", "challenge"} /\ E.state = "ok" /\ (E.tls \/ ~E.insecure))
+                                                  => E.cb = 1)
        \cup Flag("C08_SessionContinues", E.cont_ok)
 EvClient ==
   /\ E.t \in {"client_tls", "client_after"} /\ UNCHANGED tls
